@@ -148,18 +148,19 @@ def model_eval(chk, facts, obs):
     idx = {n: i for i, n in enumerate(order)}
     obs = sorted(set(obs))
     lines = ["From Coq Require Import List String ZArith.",
-             "Require Import PPLV.CIface.Exn PPLV.CIface.Entries PPLV.gen.Facts_CIface PPLV.CIface.C20.",
+             "Require Import PPLV.CIface.Exn PPLV.CIface.Entries PPLV.CIface.Spec PPLV.gen.Facts_CIface.",
              "Import ListNotations.", "Open Scope string_scope.",
              "Definition dummy := mkEntry \"\" 0 false [] [] false.",
              "Definition zcode (c : ecode) : Z := match value_of enum_error_code c with Some z => z | None => 1%Z end.",
-             "Definition expect (o : nat * string * option cls) : Z * Z :=",
-             "  let '(i, n, c) := o in let en := nth i entries dummy in",
-             "  if negb (String.eqb (e_name en) n) then (2, 2)%Z else",
+             "Definition spec (c : option cls) : Z := documented_value (match c with Some c => documented_code c | None => ERROR_UNEXPECTED_ERROR end).",
+             "Definition expect (o : nat * string * option cls) : Z * Z * Z :=",
+             "  let '(i, n, c) := o in let en := nth i entries dummy in (fun p : Z * Z => (fst p, snd p, spec c))",
+             "  (if negb (String.eqb (e_name en) n) then (2, 2)%Z else",
              "  match run_entry en (Throws (match c with Some c => of_class c | None => foreign end)) with",
              "  | (ReturnedCode k, eff) => (zcode k, match eff with [E_notify k2] => zcode k2 | E_reset_timeout :: [E_notify k2] => zcode k2",
              "                                        | E_reset_det_timeout :: [E_notify k2] => zcode k2 | _ => 3%Z end)",
              "  | (Escaped _, _) => (4, 4)%Z",
-             "  | _ => (5, 5)%Z end.",
+             "  | _ => (5, 5)%Z end).",
              "Definition obs : list (nat * string * option cls) := ["]
     lines.append(";\n".join("  (%d, \"%s\", %s)" % (idx[n], n, "None" if c == "foreign" else "Some " + c) for n, c in obs))
     lines += ["].", "Eval vm_compute in (map expect obs)."]
@@ -175,11 +176,11 @@ def model_eval(chk, facts, obs):
         chk.broken.append(("model-eval", out[-2000:]))
         return {}
     flat = re.sub(r"\((-?\d+)\)%Z", r"\1", out).replace("%Z", "")
-    vals = re.findall(r"\(\s*(-?\d+)\s*,\s*(-?\d+)\s*\)", flat)
+    vals = re.findall(r"\(\s*(-?\d+)\s*,\s*(-?\d+)\s*,\s*(-?\d+)\s*\)", flat)
     if len(vals) != len(obs):
         chk.broken.append(("model-eval-parse", "%d values for %d observations" % (len(vals), len(obs))))
         return {}
-    return {o: (int(a), int(b)) for o, (a, b) in zip(obs, vals)}
+    return {o: (int(a), int(b), int(c)) for o, (a, b, c) in zip(obs, vals)}
 
 
 def judge_lines(chk, facts, dom, lines, stats):
@@ -220,8 +221,11 @@ def judge_lines(chk, facts, dom, lines, stats):
             exp = model.get((entry, m))
             if exp is None:
                 info = {"site": entry, "condition": "no-model-value"}
-            elif r != exp[0] or seen(f) != [exp[1]]:
+            elif r != exp[2] or seen(f) != [exp[2]]:
+                # the compiled entry does not return (and notify) the enumerator DOCUMENTED for the thrown class
                 info = {"site": entry, "condition": "error-code-differs", "thrown": m}
+            elif (exp[0], exp[1]) != (exp[2], exp[2]):
+                chk.broken.append(("model-vs-spec", "%s %s: model %s, documented %s" % (entry, m, exp[:2], exp[2])))
         if info is None:
             for col, cond in ((7, "output-handle-differs"), (8, "const-argument-modified"), (9, "handle-unusable-after"), (10, "output-value-differs")):
                 if f[col] == "0":
@@ -288,14 +292,17 @@ def run(chk):
             (len(facts["entries"]), len(facts["protos"]), len(doms), nchains, len(dangling)))
     nstatic = static_part(chk, facts, objs)
     chk.count(nstatic)
-    ok = chk.prove(["CIface/Exn.v", "CIface/Entries.v", "gen/Facts_CIface.v", "CIface/C20.v"])
+    ok = chk.prove(["CIface/Exn.v", "CIface/Entries.v", "CIface/Spec.v", "gen/Facts_CIface.v", "CIface/C20.v"])
     # refutations of the full statements (not audited obligations: they disappear when upstream fixes the defects)
     okr, outr = common.coq_make(["CIface/Refuted_C20.vo"])
     chk.extra["refutations_compile"] = bool(okr)
     if not okr:
         chk.log("note: CIface/Refuted_C20.v no longer compiles (a known defect was fixed?): %s" % outr[-300:].replace("\n", " "))
     if not ok:
-        return
+        # the theorems no longer hold on the regenerated facts: still look for a concrete failing input
+        okf, _ = common.coq_make(["CIface/Spec.vo", "gen/Facts_CIface.vo"])
+        if not okf:
+            return
 
     # ---- behaviour
     allmap = inst_map()
